@@ -18,7 +18,7 @@ import (
 	"golang.org/x/tools/go/cfg"
 )
 
-func init() { register("C31", checkC31, "./compile/lexer") }
+func init() { register("C31", checkC31, "./compile/lexer", "./core") }
 
 type lexA struct {
 	p        *Prog
@@ -586,10 +586,11 @@ func checkC31(c *Ctx) string {
 	c.Floor(r1, total, 3, "end-of-input edges in string scanners")
 	c.Stats["string_scanners"] = len(scanners)
 	c.Stats["eof_edges"] = total
+	checkEscapeRoundTrip(c, "C31.3 K14 display escaping and lexer unescaping are inverse per byte")
 	checkEofTestsRawInput(c, "C31.2 K4c the end-of-input sentinel is compared only with bytes read from the source")
 	return "Decided: in package compile/lexer, for every function that can return an Item with Token == tok.String (found by effect: today rawString and quotedString), " +
 		"for every branch edge that means end of input (index compared against len of a string derived from Lexer.src, or a value derived from read()/peek() compared with the constant eof), " +
 		"every return statement reachable from that edge before another call that reads (read, or a Lexer method calling read within two levels) builds its Item with the constant Token tok.Error " +
 		"(Item literals, the package function it(), local closures and single-return helpers are resolved through the type-checked program, constants by value). " +
-		"Not decided: that the escape decoding (doesc) is the inverse of the display escaping, that the parsers turn tok.Error into a syntax error (they do so by not accepting the token), other kinds of literals."
+		"Also: the end-of-input sentinel is compared only with a byte whose reaching definition is read()/peek(); core.escape and Lexer.doesc folded over all 256 byte values and both quote characters: what escape emits for a byte (and the byte itself where escape copies it verbatim) is consumed completely by doesc and decodes to that byte. Not decided: the choice of quote character (bestQuote) and back-quoted display, that the parsers turn tok.Error into a syntax error (they do so by not accepting the token), display of other kinds of constants (numbers, dates, objects)."
 }
